@@ -218,6 +218,10 @@ func (w *World) place(e *Entry) error {
 		}
 		return os.WriteFile(filepath.Join(p, "inner.pb.go"), []byte(outOfScope), 0o644)
 	case KSymlink:
+		if e.Raw == "dir" {
+			// a symbolic link named like a Go file that points to a directory (outside the simulated one)
+			return os.Symlink(filepath.Join(w.root, "other"), p)
+		}
 		return os.Symlink(filepath.Join(w.root, "d", "does-not-exist-target"), p)
 	}
 	return os.WriteFile(p, []byte(e.Content()), 0o644)
